@@ -205,11 +205,12 @@ Proof. eexists. apply verify_unfold. Qed.
 Section Result.
   Variable g : graph.
   Hypothesis G : GInv g.
+  Hypothesis R : RInv g.
   Variables (c : cert) (t : Z) (name : option bool) (onecrl : option bool) (crlset : option (list N)) (r : vres).
   Hypothesis Hr : verify g c t name onecrl crlset = Some r.
 
   Lemma walk_nonempty ch : In ch (walk g c) -> ch <> [].
-  Proof. intros H. apply (walk_length_bound g G c) in H. destruct ch; simpl in H; [lia | discriminate]. Qed.
+  Proof. intros H. apply (walk_length_bound g G R c) in H. destruct ch; simpl in H; [lia | discriminate]. Qed.
 
   Lemma res_fields :
     r_current r = filter (cls_cur t) (walk g c) /\
@@ -309,7 +310,7 @@ Section Result.
   Lemma parents_same_node p : In p (r_parents r) -> e_iss (start_edge g c) = Some (node_of p).
   Proof.
     intros Hp. destruct parents_are_second_certs as [_ [Hs _]]. destruct (Hs p Hp) as [ch [Hch Hsec]].
-    apply relevant_in_walk in Hch. apply (walk_sound g G c) in Hch as [path [[suf [-> Hn]] ->]].
+    apply relevant_in_walk in Hch. apply (walk_sound g G R c) in Hch as [path [[suf [-> Hn]] ->]].
     destruct suf as [|e suf]; [discriminate|]. simpl in Hsec. inversion Hsec; subst p.
     simpl in Hn. destruct Hn as [[_ [He [Hi _]]] _]. rewrite Hi. f_equal. now apply (edge_wf g G).
   Qed.
@@ -354,6 +355,6 @@ Section Result.
     destruct (r_current r) as [|ch l] eqn:E; [reflexivity|]. exfalso. apply He.
     assert (Hin : In ch (r_current r)) by (rewrite E; now left).
     apply current_iff in Hin as [Hw Hall]. apply Hall.
-    apply (walk_sound g G c) in Hw as [path [[suf [-> _]] ->]]. simpl. left. exact Hstart.
+    apply (walk_sound g G R c) in Hw as [path [[suf [-> _]] ->]]. simpl. left. exact Hstart.
   Qed.
 End Result.
